@@ -474,7 +474,7 @@ func raceKey(report string) string {
 	for _, l := range strings.Split(report, "\n") {
 		l = strings.TrimSpace(l)
 		if strings.HasPrefix(l, "github.com/getlantern/zenodb") && strings.Contains(l, "(") {
-			fns = append(fns, l[:strings.Index(l, "(")])
+			fns = append(fns, l[:strings.LastIndex(l, "(")])
 			if len(fns) >= 4 {
 				break
 			}
